@@ -40,6 +40,9 @@ class Quant:
         if n is None:
             return {(True, False, False), (False, False, False)}
         m = self.spec.member(n)
+        if m == 2:
+            # an existential test (std::any_of "is a member"): neither outcome says that every element is a member
+            return {(True, True, False), (False, True, False)}
         if m:
             # value True  <=> member (m=+1) / not member (m=-1)
             return {(True, m < 0, False), (False, m > 0, False)}
